@@ -1,5 +1,6 @@
 """C18  SLC addresses select the right file, element and bit; data round-trips."""
 from vlib.ob import Registry
+from vlib.sym import concrete
 from vlib import scen, chplugin
 from vlib.ref import codec as R
 from vlib.ref.slc import SlcTarget
@@ -43,7 +44,7 @@ def _mk_fields(ch):
             mem = [(3 * i + 1) % 256 for i in range(256 * n)]
             target, d = mk({(ch, fno): mem})
             # the file number is rendered through a table lookup: the engine enumerates it, so the address regexes run on concrete digits
-            addr = letter(ch, low) + ("" if ch in "SIO" else NUMS[f]) + ":" + str(e)
+            addr = letter(ch, low) + ("" if ch in "SIO" else NUMS[concrete(f)]) + ":" + str(e)
             valid = (ch in "SIO" or 1 <= f <= 255) and 0 <= e <= 255
             try:
                 tg = d.read(addr)
@@ -176,6 +177,7 @@ def _mk_bfile(lo, hi):
 
     def h(nbit: int, val: bool, m: bytes) -> str:
         try:
+            nbit = concrete(nbit)
             addr = "B3/" + names[nbit - lo]       # table lookup: the engine enumerates the bit number, prior word and value stay symbolic
             if nbit > 4095:
                 try:
@@ -328,6 +330,7 @@ REG.add("malformed-addresses", malformed, engine="N", twin=False, funcs=F[:1], d
 def _mk_parse(ch):
     def h(f: int, e: int, b: int, low: int) -> str:
         try:
+            f, e, b = concrete(f), concrete(e), concrete(b)
             addr = letter(ch, low) + NUMS[f] + ":" + NUMS[e] + ("/" + NUMS[b] if b < 100 else "")
             r = parse_tag(addr)
             valid = 1 <= f <= 255 and 0 <= e <= 255 and (b >= 100 or b <= 15)
